@@ -133,6 +133,11 @@ def propagate(
     omit_names = [*source, 'verbose']
     args = {k: v for k, v in _var_opts.items() if k not in omit_names}
 
+    # describe() reports the resolved maximum lag in distance units. Passed on
+    # as is, a value < 1 would be taken for a share of the maximum distance
+    if 'maxlag' in args and 'maxlag' not in source:
+        args['maxlag'] = getattr(variogram, '_maxlag_passed_value', args['maxlag'])
+
     # add back the metric space
     args['coordinates'] = metricSpace
 
